@@ -2546,7 +2546,8 @@ impl Melda {
             .expect("expecting_winning_order");
         let new_order = new_descriptor.get_order().as_ref().unwrap();
         let patch = make_diff_patch(&winning_order, new_order).expect("failed_diffing");
-        if patch.is_empty() {
+        // An array that was deleted is recorded again even when it comes back empty
+        if patch.is_empty() && !rt.get_winner().expect("no_winner").is_deleted() {
             Ok(None)
         } else {
             Ok(Some(
